@@ -148,7 +148,8 @@ def run(rep, rng, tier, replay=None):
                               what="NaN decomposition returned as Ok with the stability test on")
             if not has_nan and all(math.isfinite(b2f(v)) for v in allf + c["m"]):
                 ferr = l21_error_f64(c["m"], fi["inverse"], n)
-                if ferr > tol:
+                # a margin of n^2 ulps: the property does not fix the order in which the routine rounds the norm
+                if ferr > tol * (1 + 4 * n * n * 2.0**-52) + 1e-300:
                     rep.violation("property", "Ok returned although the L21 distance |inverse*M - 1|, evaluated in binary64 as the routine does, "
                                   "is %r > tolerance %r" % (ferr, tol), case=c, failing_input=True, what="stability test lets a too large error pass")
             if False:
